@@ -239,8 +239,7 @@ def handle (req : Sexp) : Sexp :=
   | .list [.atom "strict", r, s] =>
     match res? r, strict? s with
     | some r, some s => match isStrictnessFulfilled r s with
-      | .ok (.bool b) => Sexp.ofBool b
-      | .ok .series => .atom "series"
+      | .ok b => Sexp.ofBool b
       | .error e => errOut e
     | _, _ => bad
   | .list [.atom "rankval", r, c, s, rt] =>
